@@ -269,7 +269,7 @@ Proof. unfold txn_log, wf_log. split; [repeat constructor|]; wf_tac. Qed.
 Example txn_index_wf : index_wf txn_log txn_index.
 Proof.
   intros p f m [[= <- <- <-]|[]]. split; [lia|]. split; [|split].
-  - eexists. split; [left; reflexivity|]. cbn. auto.
+  - right. eexists. split; [left; reflexivity|]. cbn. auto.
   - eexists. split; [right; right; left; reflexivity|]. cbn. auto.
   - intros b Hb Hm Hp Hr. cbn in Hb.
     repeat (destruct Hb as [Hb|Hb]; [injection Hb as <-; cbn in *; try congruence; try lia|]); auto.
@@ -285,6 +285,40 @@ Proof.
           |injection E as <- E]);
   destruct pre; discriminate.
 Qed.
+
+(* the head of the log deleted in the middle of an aborted transaction: producer 1 began at 20 (gone), its batch
+   [30..31] and the abort marker 33 survive; the broker still reports first offset 20 *)
+Definition cut_log : list sbatch :=
+  [data_batch 30 1 1 true [rec0 0 1; rec0 1 2]; data_batch 32 0 (-1) false [rec0 0 3]; marker_batch 33 1 0; data_batch 34 0 1 true [rec0 0 4]; marker_batch 35 1 1].
+Definition cut_index : list entry := [(1, 20, 33)].
+
+Example cut_log_wf : wf_log cut_log.
+Proof. unfold cut_log, wf_log. split; [repeat constructor|]; wf_tac. Qed.
+
+Example cut_index_wf : index_wf cut_log cut_index.
+Proof.
+  intros p f m [[= <- <- <-]|[]]. split; [lia|]. split; [|split].
+  - left. cbn. lia.
+  - eexists. split; [right; right; left; reflexivity|]. cbn. auto.
+  - intros b Hb Hm Hp Hr. cbn in Hb.
+    repeat (destruct Hb as [Hb|Hb]; [injection Hb as <-; cbn in *; try congruence; try lia|]); auto.
+Qed.
+
+Example cut_index_complete : index_complete cut_log cut_index.
+Proof.
+  intros pre b rest E Hc Ht. unfold cut_log in E.
+  repeat (destruct pre as [|? pre]; cbn in E;
+          [injection E as <- <-; cbn in *; try discriminate;
+           (split; [intros H; try discriminate; try (eexists _, _; split; [left; reflexivity|cbn; lia])
+                   |intros (f & m & [[= <- <-]|[]] & H1 & H2); cbn in *; try lia; try reflexivity])
+          |injection E as <- E]);
+  destruct pre; discriminate.
+Qed.
+
+Example cut_visible :
+  map cm_offset (visible (Build_cfg 1048576 0 true) cut_log) = [32; 34] /\
+  aborted_txns [(1, 20)] cut_log = cut_index.
+Proof. split; reflexivity. Qed.
 
 Example txn_visible :
   map cm_offset (visible (Build_cfg 1048576 0 true) txn_log) = [32; 35; 36] /\
@@ -350,6 +384,10 @@ Lemma holes_example : wf_log holes_log /\ data cfg0 holes_log [] st13 holes_resp
   map cm_offset (fst (fst (fst (parse_response cfg0 st13 holes_resp)))) = [17] /\
   offset (snd (fst (fst (parse_response cfg0 st13 holes_resp)))) = 18.
 Proof. exact (conj holes_log_wf (conj holes_resp_faithful holes_resp_parsed)). Qed.
+
+Lemma cut_example : wf_log cut_log /\ index_wf cut_log cut_index /\ index_complete cut_log cut_index /\
+  map cm_offset (visible (Build_cfg 1048576 0 true) cut_log) = [32; 34] /\ aborted_txns [(1, 20)] cut_log = cut_index.
+Proof. exact (conj cut_log_wf (conj cut_index_wf (conj cut_index_complete cut_visible))). Qed.
 
 Lemma txn_example : wf_log txn_log /\ index_wf txn_log txn_index /\ index_complete txn_log txn_index /\
   map cm_offset (visible (Build_cfg 1048576 0 true) txn_log) = [32; 35; 36] /\
